@@ -743,3 +743,21 @@ M("m150", "C20", "R20.14", SOLVER, "        self.gamma = jnp.array(self.config.g
 B("b53", ["C20", "C02", "C01", "C08"], SOLVER, "        self.gamma = jnp.array(self.config.gamma)\n", "        self.gamma = jnp.asarray(self.config.gamma)\n",
   "asarray instead of array")
 
+# =============================================================================== slips inside the shapes of the fifth-round refactorings
+# (memo tables, enum discriminants, dataclass constructors, delegating methods, negative slice bounds, moved distribution calls: each
+# normal form must keep a slip visible to the rule that guards the original statements)
+MB("m151", "C06", ["R6.1"], "r5set3_1", SOLVER, "            padding_mask = (jnp.arange(n_total) >= self.problem.n_states).reshape(\n",
+   "            padding_mask = (jnp.arange(n_total) > self.problem.n_states).reshape(\n", "cached padding mask off by one (memo table dissolved)")
+MB("m152", "C12", ["R12.5"], "r5set3_3", CKPT, "        if self.has_full_config:\n            return _CheckpointMode.FULL\n",
+   "        if not self.has_full_config:\n            return _CheckpointMode.FULL\n", "checkpoint mode classified with the condition inverted (discriminant folded)")
+MB("m154", "C17", ["R17.4"], "r5set4_7", "src/mdpax/utils/matrices.py", "    P = P / jnp.where(row_sums > 0, row_sums, 1.0)  # Avoid division by zero\n",
+   "    P = P / jnp.where(row_sums > 1, row_sums, 1.0)  # Avoid division by zero\n", "normalisation guard `> 1` in the moved matrix builder (delegating method)")
+MB("m155", "C15", ["R15.3"], "r5set5_4", DEMOOR, "        closing_stock = jnp.hstack([in_transit[-1], stock_after_issue[:-1]])\n",
+   "        closing_stock = jnp.hstack([in_transit[-1], stock_after_issue[1:]])\n", "ageing drops the youngest instead of the oldest units (negative slice bounds)")
+MB("m156", "C06", ["R6.1", "R6.2", "R6.3", "R6.4", "R6.5"], "r5set2_4", SAVI, "        return cls.SHUFFLED if shuffle_states else cls.NATURAL\n",
+   "        return cls.NATURAL if shuffle_states else cls.SHUFFLED\n", "sweep order enum chosen the wrong way round (classmethod discriminant)")
+MB("m157", "C16", ["R16.6"], "r5set5_2", HENDRIX, "        return prob_db * (jnp.arange(self.max_stock_b + 1) < stock_b)\n",
+   "        return prob_db * (jnp.arange(self.max_stock_b + 1) <= stock_b)\n", "shared masked pmf includes the sell-out level (moved distribution call)")
+MB("m153", "C18", ["R18.1"], "r5set4_3", BATCH, "        self.n_pad = total_size - n_states\n", "        self.n_pad = total_size - n_states - 1\n",
+   "padding count one short in the dataclass __post_init__ (constructor written out)")
+
